@@ -28,6 +28,44 @@ func indexPath(p *Path) *pathIndex {
 	return ix
 }
 
+// flattenSlice: x[a:b][c:d] is x[a+c : a+d] (x[a:b][c:] is x[a+c : b]).
+func flattenSlice(v *Val) *Val {
+	v = stripCT(v)
+	for v != nil && v.Op == "slice" && len(v.Args) >= 3 {
+		in := stripCT(v.Args[0])
+		if in.Op != "slice" || len(in.Args) < 3 {
+			break
+		}
+		a, b := in.Args[1], in.Args[2]
+		c, d := v.Args[1], v.Args[2]
+		add := func(x, y *Val) *Val {
+			switch {
+			case x == nil:
+				return y
+			case y == nil:
+				return x
+			}
+			return affToVal(affOf(x).Add(affOf(y), 1))
+		}
+		lo := add(a, c)
+		var hi *Val
+		if d != nil {
+			hi = add(a, d)
+		} else {
+			hi = b
+		}
+		if (lo != nil && affOf(lo).Top) || (hi != nil && affOf(hi).Top) {
+			break
+		}
+		var max *Val
+		if len(v.Args) > 3 {
+			max = v.Args[3]
+		}
+		v = &Val{Op: "slice", Args: []*Val{in.Args[0], lo, hi, max}, Type: v.Type}
+	}
+	return v
+}
+
 // eventBytes: the constant number of bytes a top-level wire event appends, when it is constant.
 func eventBytes(e *Event) (int64, bool) {
 	switch e.Kind {
@@ -50,7 +88,7 @@ func (ix *pathIndex) cut(m *Event, c int64) (int, bool) {
 
 // cutLim: as cut, using only the events before index lim of the path (what has been written by then).
 func (ix *pathIndex) cutLim(m *Event, c int64, lim int) (int, bool) {
-	if m == nil || m.Kind != EvLen {
+	if m == nil || (m.Kind != EvLen && m.Kind != EvBytes) {
 		return 0, false
 	}
 	pos := ix.wirePos[m]
@@ -187,7 +225,7 @@ func (ix *pathIndex) cutOf(v *Val) (pos int, m *Event, ok bool) {
 		}
 		m = ix.marker(aff.Sym[k])
 	}
-	if m == nil || m.Kind != EvLen {
+	if m == nil || (m.Kind != EvLen && m.Kind != EvBytes) {
 		return 0, nil, false
 	}
 	pos, ok = ix.cut(m, aff.C)
@@ -195,6 +233,12 @@ func (ix *pathIndex) cutOf(v *Val) (pos int, m *Event, ok bool) {
 }
 
 func (ix *pathIndex) marker(v *Val) *Event {
+	if v != nil && v.Op == "len" && len(v.Args) == 1 {
+		// len(buf.Bytes()) is the buffer's length at the moment Bytes() was taken
+		if b := stripCT(v.Args[0]); b.Op == "bufbytes" {
+			return ix.byID[b.ID]
+		}
+	}
 	if v == nil || (v.Op != "buflen" && v.Op != "bufbytes") {
 		return nil
 	}
@@ -324,7 +368,7 @@ func (a *Analysis) checkLenPath(rep *Report, ct *CodecType, pl *PathLayout) {
 	ph := lf.Ev[0]
 	k := ix.wirePos[ph]
 	// L2
-	dst := stripCT(patch.Dst)
+	dst := flattenSlice(patch.Dst)
 	okRange := false
 	msg := "patched range " + patch.Dst.Pretty()
 	if dst.Op == "slice" && dst.Args[1] != nil && stripCT(dst.Args[0]).Op == "bufbytes" {
@@ -374,7 +418,7 @@ func (a *Analysis) checkLenPath(rep *Report, ct *CodecType, pl *PathLayout) {
 	if !aff.Top && len(aff.Term) == 2 {
 		for kk, c := range aff.Term {
 			m := ix.marker(aff.Sym[kk])
-			if m == nil || m.Kind != EvLen {
+			if m == nil || (m.Kind != EvLen && m.Kind != EvBytes) {
 				mS, mE = nil, nil
 				break
 			}
@@ -406,6 +450,9 @@ func (a *Analysis) checkLenPath(rep *Report, ct *CodecType, pl *PathLayout) {
 				okVal = true
 			}
 		}
+	}
+	if z, isC := inner.Int64(); isC && z == 0 && nb == 0 {
+		okVal = true // nothing was written between the placeholder and the patch: the body is empty and its size is the constant 0
 	}
 	rep.Ob("L1-length-is-body-size", key, okVal, ppos, vmsg)
 	stored := false
@@ -678,7 +725,7 @@ func (a *Analysis) CheckC06(rep *Report) {
 					rep.Ob("A1-nested-encode", key+":obj", e.Dir == "Encode", epos, "encoding calls "+e.Dir+" on a nested part")
 				case EvPatch:
 					okp := false
-					dst := stripCT(e.Dst)
+					dst := flattenSlice(e.Dst)
 					if depth == 0 && dst.Op == "slice" && dst.Args[1] != nil && stripCT(dst.Args[0]).Op == "bufbytes" {
 						// the patched window lies between two boundaries of atoms this call has already appended, and is as
 						// wide as the number written
@@ -751,7 +798,15 @@ func (a *Analysis) CheckC06(rep *Report) {
 					rep.Ob("A3-stores-only-computed-or-materialised", k3, true, "", "") // p.X = p.X: no change
 					continue
 				}
-				computed := src.Op == "calc" || stripIntConv(src).Contains(func(x *Val) bool { return x.Op == "buflen" })
+				computed := src.Op == "calc" || stripIntConv(src).Contains(func(x *Val) bool { return x.Op == "buflen" || x.Op == "bufbytes" })
+				if !computed {
+					// the value the frame patches into its length placeholder on this path (C04 judges that value)
+					for _, pe := range p.Events {
+						if pe.Kind == EvPatch && pe.Src != nil && stripIface(pe.Src).Key() == src.Key() {
+							computed = true
+						}
+					}
+				}
 				materialised := false
 				if src.Op == "dyncall" || src.Op == "alloc" {
 					nilArm := false
@@ -803,6 +858,13 @@ func markerDependence(v *Val) string {
 		if bad != "" || x == nil {
 			return
 		}
+		isLenOfBytes := func(y *Val) bool {
+			return y.Op == "len" && len(y.Args) == 1 && stripCT(y.Args[0]).Op == "bufbytes"
+		}
+		if isLenOfBytes(x) {
+			bad = "absolute " + x.Pretty() // the buffer's length when Bytes() was taken: an observation like Len()
+			return
+		}
 		if x.Op == "bufbytes" || x.Op == "bufnext" {
 			bad = "content of " + x.Pretty()
 			return
@@ -818,7 +880,7 @@ func markerDependence(v *Val) string {
 			bad = "absolute " + x.Pretty()
 			return
 		}
-		if x.Op == "binop" && (x.Name == "+" || x.Name == "-") && x.Contains(func(y *Val) bool { return y.Op == "buflen" }) {
+		if x.Op == "binop" && (x.Name == "+" || x.Name == "-") && x.Contains(func(y *Val) bool { return y.Op == "buflen" || isLenOfBytes(y) }) {
 			aff := affOf(x)
 			if aff.Top {
 				bad = "non-affine use of a Len() observation in " + x.Pretty()
@@ -826,7 +888,7 @@ func markerDependence(v *Val) string {
 			}
 			sum := int64(0)
 			for k, c := range aff.Term {
-				if aff.Sym[k].Op == "buflen" {
+				if aff.Sym[k].Op == "buflen" || isLenOfBytes(aff.Sym[k]) {
 					sum += c
 				} else {
 					visit(aff.Sym[k])
